@@ -13,7 +13,7 @@ for c in C08 C09 C13 C14 C16 C17 C20; do
     grep -E "signature|HARNESS-ERROR|detail" /dev/shm/benign.$$.log | head -4 | cut -c1-260 | sed "s/^/      [$c] /"
   fi
 done
-git checkout -q -- .
+git checkout -q -- . ; git clean -fdq -- src tests
 git status --porcelain | grep -v '^??' | head -2
 find /verif/replays -name '*.json' -delete
 rm -f /dev/shm/benign.$$.log
